@@ -8,9 +8,10 @@ FUNCTIONS = ["gherkin.parser.Parser.parse (generated state machine, executed unc
 DESCS = [["text", "blank", "ws"], ["comment", "blank", "text"], ["ws", "text", "ws"], ["text", "comment", "blank"], ["comment", "ws", "ws"]]
 
 
-def doc_conditions(tier, shapes=("titles", "steps", "docstring", "description", "outline"), fn="ast_matches_model", extra=None, eols=("\n",), T=900, start=0):
+def doc_conditions(tier, shapes=("titles", "steps", "docstring", "description", "outline"), fn="ast_matches_model", extra=None, eols=("\n",), T=900, start=0, deep=False):
     q = tier == "quick"
-    n = 1 if q else 2
+    # text pieces of 2 symbolic characters cost 10-30 CPU-minutes per family: only where asked for (C03 thorough)
+    n = 2 if (deep and not q) else 1
     cs = []
     for sh in shapes:
         for eol in eols:
